@@ -1,6 +1,9 @@
 """C07 -- placement calls return or throw; never crash or invoke undefined behaviour.
-Proof part: coq/Properties_C07.v (machine-integer model of the row legalizer's arithmetic: every C++-typed
-intermediate fits its type on the property's magnitude domain).  Observation part (what a theorem cannot
+The property itself is OBSERVED (sanitizers), not proved: no theorem speaks about an entry point.
+Proof part: coq/Properties_C07.v (hand-written listings of the C++-typed intermediates of the row legalizer, Abacus, the
+DetailedPlacement operations, hpwl / the incremental net model, computeSubdivisions, the 1-D transportation solver, the DensityGrid
+constructor, the successive-shortest-path solver and the float cost scaling: every LISTED value fits its type on a stated magnitude
+domain -- conditional on the completeness of the listings, which is not checked against the code).  Observation part (what a theorem cannot
 carry: memory safety / termination of the compiled artefact incl. Eigen, lemon, boost): the three entry
 points and the internal classes are run under AddressSanitizer + UndefinedBehaviorSanitizer
 (-fno-sanitize-recover=all) with assertions ENABLED (the README's default configuration) and, in the
@@ -239,6 +242,10 @@ def run(ctx):
                 "variants": variants, "per_variant": per,
                 "samples": samples[:6], "impl_outputs_violating_statement": len(bad)})
     return ctx.finish(LEVEL, cov, ["sanitizer observation is not a proof: it covers the generated cases only",
+                                   "the theorems are about hand-written listings of intermediates over the ideal models (completeness of a listing is trusted; no listed value is compared with the code); "
+                                   "no theorem about any entry point, the Tetris legalizer, the density legalizer's bisection, the detailed-placement pass loops, NetModel index arithmetic, "
+                                   "or float-to-integer conversions other than costsFromIntegers",
+                                   "distinct_nontrivial = cases run minus failing cases (every case exercises an entry point); the quick tier runs only the assertions-on ASan build",
                                    "timeouts: a chunk of cases that does not finish within its limit is reported on the case it stalled on"])
 
 
